@@ -23,6 +23,10 @@ func runC02(c *Ctx) {
 		c.analysedFn(p.FnName(fn))
 	}
 	all := p.FnsIn()
+	// the poll and the offer are read whole or refused (C14's body-cap obligation): a silently truncated offer is matched and delivered to the proxy as if it were the client's
+	c.prefix = "O-7/C14:"
+	c.checkBodyCap(broker)
+	c.prefix = ""
 
 	// ---------- O-1 channel privacy ----------
 	for _, fk := range [][2]string{{"Snowflake", "offerChannel"}, {"Snowflake", "answerChannel"}, {"Snowflake", "id"}, {"ProxyPoll", "offerChannel"}, {"ProxyPoll", "id"}} {
